@@ -1,6 +1,6 @@
 """C09 - snapshot edge-list files round-trip the presence relation."""
 import gen
-from props.base import PropBase, tup
+from props.base import PropBase, bigio_case, with_bigio, tup
 from props.graphcommon import state_case, known_nodes, has_probes, Truth
 from props.suboracles import o_canon, pairs_of, pres_set
 
@@ -18,6 +18,7 @@ def four_col_rows(rnd, nodes):
     return rows
 
 
+@with_bigio
 class C09(PropBase):
     id = 'C09'
     obs = {'wsnap', 'wsnaptext', 'rtsnap', 'rsnap', 'has', 'inter'}
@@ -33,15 +34,21 @@ class C09(PropBase):
         return ['E2 histories (4 pair shapes, <= 2 calls, t in 0..2), both classes, one format each%s' % ('' if tier == 'thorough' else ' (every 6th)')]
 
     def exhaustive_cases(self, tier):
-        # one LARGE graph (thousands of rows): buffering / chunking defects of the writers only show beyond a block size
-        for directed in (False, True):
-            yield dict(directed=directed, removal=True, hist=[('add', 0, 1, 2, 0, 4700), ('add', 0, 2, 1, 4800, 9100)],
-                       family='int', functional=False, fmt=FMTS[5 if directed else 18], rows4=[])
+        # LARGE files: buffering / chunking / size-hint defects of writers and readers only show beyond a block size
+        # (4 096 rows, 64 KiB, 1 MiB, 4 MiB ...): one graph of about 9 000 rows per class probed instant by instant on
+        # the thorough tier, and multi-megabyte round trips (implementation side only) on every tier
+        yield bigio_case(('snap', False, 450000, False, 'plain'))
+        if tier == 'thorough':
+            for directed in (False, True):
+                yield dict(directed=directed, removal=True, hist=[('add', 0, 1, 2, 0, 4700), ('add', 0, 2, 1, 4800, 9100)],
+                           family='int', functional=False, fmt=FMTS[5 if directed else 18], rows4=[])
+            yield bigio_case(('snap', True, 700000, False, 'bz2'), ('snap', False, 700000, False, 'fileobj'))
         step = 1 if tier == 'thorough' else 6
         for directed in (False, True):
             for i, h in enumerate(gen.exhaustive_E2(max_len=2, tmax=2)):
                 if i % step == 0:
                     yield dict(directed=directed, removal=True, hist=h, family='int', functional=False, fmt=FMTS[i % len(FMTS)], rows4=[])
+        yield bigio_case(('snap', True, 450000, False, 'gz'), ('snap', True, 6000, False, 'fileobj'), ('snap', False, 70000, False, 'bz2'))
 
     def n_random(self, tier):
         return 400 if tier == 'quick' else 20000
